@@ -10,6 +10,10 @@ NOT_BUILT = "rules designed (DESIGN.md sections 3-4) but not built yet; not clai
 
 # property -> (technique, level text, level note, design ref)
 CLAIMED = {
+ "C04": ("SSA dataflow + dominator/must-edge guard proofs (argument arity, string positions, divisors, narrowing, allocation sizes), typed panic/recover reachability and SCC analysis over the VTA call graph",
+         "Structural necessary conditions, each flagging a construct that is a Go panic or fatal error for some input: argument reads within declared arity; normalised positions proved in range at every use; guarded integer divisors; every explicit panic below a recover of its type or table-listed as internal; range-checked narrowing in the code generator; no unguarded recursion reachable from the API; computed-size allocations bounded, charged, and (for decoded lengths) compared with the input left. This is the property the family fits best: each clause is visible in the shape of the code on every path.",
+         "Trusted: go/types, go/ssa, VTA+CHA over-approximation with callback filtering; tables confirmed by reading (preconditions re-verified each run). Not decided: absence of all Go run-time errors (nil deref, arbitrary indexing); behaviour of the VM on forged bytecode that decodes; OOM from legitimately huge sizes without limits.",
+         "DESIGN.md 3 (R-ARITY..R-ALLOC), 4 (C04)"),
  "C08": ("call-graph reachability (VTA) from iosafe-declared registrations to a frozen sink list + dominator checks on the flag gate and the safeio gates + who-may-call/who-may-write rules on SSA",
          "Structural necessary conditions decided on all call paths of the source: every Lua-callable Go function is known with its declared flags; the only dispatch through GoFunction.f is dominated by the flag check; flag words are only or-ed; safeio gates test the flag before their sink; nobody else calls a sink; no iosafe-declared function reaches a sink. An over-approximate call graph decides 'for all call paths' soundly, which is the quantifier of this property.",
          "Trusted: go/types, go/ssa, VTA+CHA as over-approximation (no cgo/asm; reflect only in lib/golib which declares no flags); the frozen sink list enumerates the stdlib entry points for the listed effects. Not decided: OS behaviour, effects through handles opened before entering the context.",
